@@ -130,7 +130,15 @@ func replayDet(args []string) int {
 		defer f.Close()
 		dig = f
 	}
-	eachCase(openIn(op), func(raw []byte) {
+	var all [][]byte
+	eachCase(openIn(op), func(raw []byte) { all = append(all, append([]byte{}, raw...)) })
+	if op.str("reverse", "") != "" {
+		// the same calls in the opposite order: an outcome must not depend on what was called before in the process
+		for i, j := 0, len(all)-1; i < j; i, j = i+1, j-1 {
+			all[i], all[j] = all[j], all[i]
+		}
+	}
+	handle := func(raw []byte) {
 		var c detCase
 		if err := json.Unmarshal(raw, &c); err != nil {
 			s.Skipped++
@@ -169,7 +177,11 @@ func replayDet(args []string) int {
 		}
 		s.Judged++
 		s.Classes[c.Fam]++
-		for i := 0; i < reps; i++ {
+		n := reps
+		if c.Fam == "bind" && !c.Sens {
+			n = 3 // the order-insensitive cases need fewer repetitions
+		}
+		for i := 0; i < n; i++ {
 			o, why := run()
 			if why != "" {
 				s.bad(why, "execute-alters", raw, o, true)
@@ -195,7 +207,10 @@ func replayDet(args []string) int {
 			g := sha256.Sum256([]byte(first))
 			fmt.Fprintf(dig, "%s %s\n", hex.EncodeToString(h[:8]), hex.EncodeToString(g[:12]))
 		}
-	})
+	}
+	for _, raw := range all {
+		handle(raw)
+	}
 	return s.write(op)
 }
 
